@@ -130,6 +130,7 @@ def env_json():
             "sub": [sum(1 << b for b, cb in enumerate(CLASSES) if issubclass(a, cb)) for a in CLASSES],
             "name": [nid(c.__name__) for c in CLASSES],
             "baseName": [None if c.__base__ is None else nid(c.__base__.__name__) for c in CLASSES],
+            "mroNames": [[nid(k.__name__) for k in c.__mro__] for c in CLASSES],
             "ctx": [[nid(k), IDX[v]] for k, v in CTX.items()],
             "meta": [IDX[type(c)] for c in CLASSES],
             "fields": fields,
